@@ -18,7 +18,7 @@ package netceptor
 //@   guar STABLE: s.nameHashes == old(s.nameHashes) && forall h uint64 :: old(h in s.nameHashes) ==> (h in s.nameHashes) && s.nameHashes[h] == old(s.nameHashes[h])
 
 //@ structinv (s *Netceptor)
-//@   s.hashLock != nil && s.connLock != nil && s.routingTableLock != nil && s.listenerLock != nil && s.firewallLock != nil && s.knownNodeLock != nil && s.seenUpdatesLock != nil && s.sequenceLock != nil && s.serviceAdsLock != nil && s.workCommandsLock != nil && s.Logger != nil
+//@   s.hashLock != nil && s.connLock != nil && s.routingTableLock != nil && s.listenerLock != nil && s.firewallLock != nil && s.knownNodeLock != nil && s.seenUpdatesLock != nil && s.sequenceLock != nil && s.serviceAdsLock != nil && s.workCommandsLock != nil && s.Logger != nil && s.context != nil
 
 //@ func stringFromFixedLenBytes
 //@   tags C02 C07
